@@ -42,9 +42,15 @@ Definition ch_disable_int_func_r n a b c d e f := ch_disable_int_func n (Config.
 #[local] Hint Resolve dev_func_r ch_enable_int_func_r ch_disable_int_func_r : pyspec.
 
 (** ** _ch_divider_default: [for i, _ in enumerate(div_new): div_new[i] = 0] *)
-Definition dd_env (mk : list Z -> pv) (st : list Z * option (nat * Z)) : env :=
-  ([("self", mk (fst st))]
-     ++ match snd st with Some (k, y) => [("i", PInt (Z.of_nat k)); ("_", PInt y)] | None => [] end)%list.
+(** [vs]: the receiver's name, [vi]/[vy]: the two loop variables (read off the AST, see [dd_names]) *)
+Definition dd_env (vs vi vy : string) (mk : list Z -> pv) (st : list Z * option (nat * Z)) : env :=
+  ([(vs, mk (fst st))]
+     ++ match snd st with Some (k, y) => [(vi, PInt (Z.of_nat k)); (vy, PInt y)] | None => [] end)%list.
+Definition dd_vs : string := Eval cbv in param0 CommHandler__ch_divider_default.
+Definition dd_vi : string := Eval cbv in fst (loop_pair CommHandler__ch_divider_default).
+Definition dd_vy : string := Eval cbv in snd (loop_pair CommHandler__ch_divider_default).
+(** the names as literals (the look-up reduction wants literals) *)
+Ltac dd_names := cbv delta [dd_vs dd_vi dd_vy] in *.
 Definition dd_step (st : list Z * option (nat * Z)) (ky : nat * Z) : list Z * option (nat * Z) :=
   (Config.set_nth (fst st) (fst ky) 0, Some ky).
 Definition dd_inv (rem : list (nat * Z)) (st : list Z * option (nat * Z)) : Prop :=
@@ -69,10 +75,10 @@ Lemma ch_divider_default_func n c dev w q :
   PyLite.Ok (PNone, Some (comm (Config.upd_div c (map (fun _ => 0) (Config.div_new c))) dev w q)).
 Proof.
   pystart. pysteps. rewrite enumerate_map.
-  loop_env (dd_env (fun l => comm (Config.upd_div c l) dev w q) (Config.div_new c, None)).
-  rewrite (for_loop_fold_inv dd_inv (dd_env (fun l => comm (Config.upd_div c l) dev w q))
+  loop_env (dd_env dd_vs dd_vi dd_vy (fun l => comm (Config.upd_div c l) dev w q) (Config.div_new c, None)).
+  rewrite (for_loop_fold_inv dd_inv (dd_env dd_vs dd_vi dd_vy (fun l => comm (Config.upd_div c l) dev w q))
              (fun kv => PTuple [PInt (Z.of_nat (fst kv)); PInt (snd kv)]) dd_step).
-  - unfold dd_env. rewrite fst_fold_dd_step.
+  - unfold dd_env. dd_names. rewrite fst_fold_dd_step.
     pose proof (fold_enumerate_upd (fun (_ : Z) (_ : Z) => 0) (Config.div_new c) [] (Config.div_new c) eq_refl) as HF.
     cbn [List.length app] in HF. rewrite HF, zipw_const by reflexivity.
     destruct (snd (fold_left _ _ _)) as [[? ?]|]; pyrun.
@@ -80,7 +86,7 @@ Proof.
     assert (Hk : (k < List.length cs)%nat) by (apply (Hinv k y); left; reflexivity).
     split.
     + pose proof (norm_index_nat _ _ Hk) as Hn.
-      unfold dd_env, dd_step. destruct o as [[? ?]|]; cbn [fst snd app]; pyrun; cfg_lists; reflexivity.
+      unfold dd_env, dd_step. dd_names. destruct o as [[? ?]|]; cbn [fst snd app]; pyrun; cfg_lists; reflexivity.
     + intros k' y' Hin. unfold dd_step. cbn [fst]. rewrite Config_proofs.set_nth_length. apply (Hinv k' y'). right. exact Hin.
   - intros k y Hin. cbn [fst]. apply in_enumerate_lt in Hin. lia.
 Qed.
